@@ -38,6 +38,11 @@ out = ["### 0.7 Seeded changes and the checks that catch them",
 for sid, prop, summ, c, m in rows:
     out.append(f"| {sid} | {summ} | {c} | {m} |")
 ncaught = sum(1 for r in rows if r[3] != "-")
-out += ["", f"{ncaught} of {len(rows)} seeded changes are caught by at least one check run so far."]
+own_miss = [r[0] for r in rows if not any(c.startswith(r[0][:3] + " ") for c in r[3].split(", "))]
+out += ["", f"{ncaught} of {len(rows)} seeded changes are caught by at least one check; {len(rows) - len(own_miss)} by the check of the property their "
+            f"author was given, in the quick tier.  The others: " + ", ".join(own_miss) + " - C02I, C06I and C06K leave valid calls "
+            "unchanged and break C20 (a rejected call writes .grad first, or an enumerated fault is no longer refused): they are caught by "
+            "C20; C03J moves the boundary `s < norm_eps` to `<=` and only matrices whose largest singular value is bitwise equal to "
+            "`norm_eps` behave differently (0.6, deliberately not claimed)."]
 (V / "tools" / "design_sec0_seeded.md").write_text("\n".join(out) + "\n")
 print(ncaught, len(rows))
